@@ -379,18 +379,19 @@ def run_comframe(u):
     check replaced by a nondeterministic verdict, so that both the accepted and the rejected-and-redone step are explored: for every
     behaviour of the sub-steps the inertial centre of mass must have moved by exactly dt * V_com."""
     rep = Report(); integ, N = u['integ'], u['N']
-    label = "%s centre-of-mass bookkeeping N=%d%s " % (integ, N, (' current_C=1 (PARTIAL_BS)' if u.get('peri') else ''))
+    label = "%s centre-of-mass bookkeeping N=%d%s%s " % (integ, N, (' current_C=1 (PARTIAL_BS)' if u.get('peri') else ''), (' %d unsynchronised steps + synchronize%s' % (u.get('steps', 1), ' ' + str(u.get('set', ''))) if integ in ('WHFAST', 'SABA') else ''))
     L = build.layout()
     def run(ctx):
         dom = Real(); I, sim, V, G = mk(dom, ctx, N)
         sim.set('integrator', L.enumerators['REB_INTEGRATOR_' + integ]); dt = dom.fresh('dt'); sim.set('dt', dt)
+        for k_, v_ in (u.get('set') or {}).items(): sim.set(k_, L.enumerators[v_] if isinstance(v_, str) else v_)
         cnt = [0]
         def havoc(I_, r, *a):
             cnt[0] += 1
             for i in range(1, N):
                 for c in ('x', 'y', 'z', 'vx', 'vy', 'vz'): sim.particle(i).set(c, dom.fresh('h%d_%s%d' % (cnt[0], c, i)))
             return None
-        verdicts = []
+        verdicts = []; verd_extra = {}
         if integ == 'TRACE':
             for f in ('interaction_step', 'jump_step', 'kepler_step'): I.stubs['@reb_integrator_trace_' + f] = havoc
             def pre(I_, r):
@@ -401,37 +402,67 @@ def run_comframe(u):
             def post(I_, r):
                 v = dom.fresh('new_encounter_found'); verdicts.append(v); return v
             I.stubs['@reb_integrator_trace_post_ts_check'] = post
+        elif integ in ('WHFAST', 'SABA'):
+            # Jacobi coordinates live in ri_whfast.p_jh; slot 0 is the centre of mass and only the real com step may touch it
+            sim.set('ri_%s.safe_mode' % integ.lower(), 0)
+            psz_ = L.structs['reb_particle']['size']
+            def havoc_j(I_, r, *a):
+                cnt[0] += 1
+                pj = sim.get('ri_whfast.p_jh')
+                if 'slot0' not in verd_extra:
+                    p0_ = SimView(I_, Ptr(pj.obj, pj.off), 'reb_particle'); verd_extra['slot0'] = {c: p0_.get(c) for c in ('x', 'y', 'z', 'vx', 'vy', 'vz')}
+                for i in range(1, N):
+                    pv_ = SimView(I_, Ptr(pj.obj, pj.off + i * psz_), 'reb_particle')
+                    for c in ('x', 'y', 'z', 'vx', 'vy', 'vz'): pv_.set(c, dom.fresh('hj%d_%s%d' % (cnt[0], c, i)))
+                return None
+            for f in ('kepler_step', 'interaction_step', 'jump_step'): I.stubs['@reb_whfast_' + f] = havoc_j
         else:
             for f in ('interaction_step', 'jump_step', 'kepler_step'): I.stubs['@reb_integrator_mercurius_' + f] = havoc
             I.stubs['@reb_mercurius_encounter_predict'] = lambda I_, r: None
             I.stubs['@reb_mercurius_encounter_step'] = havoc
             I.stubs['@reb_integrator_mercurius_calculate_dcrit_for_particle'] = lambda I_, r, i: dom.fresh('dcrit')
         I.stubs['@reb_simulation_update_acceleration'] = lambda I_, r: None; I.stubs['@reb_calculate_acceleration'] = lambda I_, r: None
-        I.call('@reb_simulation_step', [sim.ptr]); I.call('@reb_simulation_synchronize', [sim.ptr])
-        return I, dom, sim, V, G, dt, verdicts
+        nst = u.get('steps', 1)
+        for _ in range(nst): I.call('@reb_simulation_step', [sim.ptr])
+        I.call('@reb_simulation_synchronize', [sim.ptr])
+        if integ in ('WHFAST', 'SABA'):
+            pj = sim.get('ri_whfast.p_jh'); p0_ = SimView(I, Ptr(pj.obj, pj.off), 'reb_particle')
+            verd_extra['slot0_final'] = {c: p0_.get(c) for c in ('x', 'y', 'z', 'vx', 'vy', 'vz')}
+        return I, dom, sim, V, G, dt * nst, (verdicts, verd_extra)
     ex = Explorer(run, max_paths=8, timeout_ms=5000); ex.explore()
     rep.queries += ex.nqueries; rep.solver_time += ex.qtime
-    for ctx, (I, dom, sim, V, G, dt, verdicts) in ex.results:
+    for ctx, (I, dom, sim, V, G, dt, (verdicts, verd_extra)) in ex.results:
         rep.paths += 1; rep.add_interp(I)
         M = [V[(i, 'm')] for i in range(N)]
         rejected = bool(verdicts) and any(d for d in ctx.decisions)
         ob = Obligations(rep, Prover(t_inproc_ms=20000, use_external=True, t_ext_s=60), label + "path%d " % rep.paths)
         assum = list(ctx.pc) + [m > 0 for m in M] + [b != 0 for b in dom.divs]
         def on_sat(model):
-            ok, detail = native_comframe(integ)
-            return ok, 'C04:comframe:%s' % integ, detail, dict(kind='comframe', integ=integ)
+            ok, detail = native_comframe(integ, u)
+            return ok, 'C04:comframe:%s' % integ, detail, dict(kind='comframe', integ=integ, unit=u)
+        if integ in ('WHFAST', 'SABA'):
+            # Jacobi slot 0 IS the centre of mass (C12 proves slot0 == sum m x / M and that the inverse map restores the particles): the
+            # bookkeeping claim is made on that slot, whatever the Kepler / interaction / jump steps did to the other slots
+            a0, a1 = verd_extra.get('slot0'), verd_extra.get('slot0_final')
+            if a0 is None or a1 is None: rep.errors.append(label + 'slot 0 not observed'); continue
+            for c in 'xyz':
+                w_ = dt * dom.z(a0['v' + c]); d_ = z3.simplify(dom.z(a1[c]) - dom.z(a0[c]) - w_, som=True); aw_ = z3.If(w_ >= 0, w_, -w_); T_ = z3.RealVal('1e-14')
+                ob.prove("Jacobi slot 0 (centre of mass) %s advanced by the elapsed time times its velocity (to 1e-14: the tabulated drift coefficients sum to 1 only to rounding)" % c, z3.And(d_ <= T_ * aw_, -d_ <= T_ * aw_), list(ctx.pc), on_sat=on_sat, domain='REAL')
+                ob.prove("Jacobi slot 0 velocity %s untouched" % c, dom.z(a1['v' + c]) == dom.z(a0['v' + c]), list(ctx.pc), on_sat=on_sat, domain='REAL')
+            ob.witness("path", assum, axioms=dom.axioms)
+            continue
         for k, c in enumerate('xyz'):
             c0 = sum((M[i] * V[(i, c)] for i in range(N)), z3.RealVal(0)); p0 = sum((M[i] * V[(i, 'v' + c)] for i in range(N)), z3.RealVal(0))
             c1 = sum((M[i] * dom.z(sim.particle(i).get(c)) for i in range(N)), z3.RealVal(0)); p1 = sum((M[i] * dom.z(sim.particle(i).get('v' + c)) for i in range(N)), z3.RealVal(0))
             ob.prove("centre of mass %s moves uniformly whatever the sub-steps do: M X(t+dt) == M X(t) + P dt" % c, c1 == c0 + p0 * dt, assum, axioms=dom.axioms, on_sat=on_sat, domain='REAL')
             ob.prove("total momentum %s is what the step started with, whatever the sub-steps do" % c, p1 == p0, assum, axioms=dom.axioms, on_sat=on_sat, domain='REAL')
         ob.witness("path", assum, axioms=dom.axioms)
-    bad, detail = native_comframe(integ); rep.replays += 1
-    if bad: rep.violations.append(dict(key='C04:comframe:%s' % integ, what=detail, replay=dict(kind='comframe', integ=integ), obligation=label + 'native twin'))
+    bad, detail = native_comframe(integ, u); rep.replays += 1
+    if bad: rep.violations.append(dict(key='C04:comframe:%s' % integ, what=detail, replay=dict(kind='comframe', integ=integ, unit=u), obligation=label + 'native twin'))
     return rep
 
 _nat2 = None
-def native_comframe(integ):
+def native_comframe(integ, u=None):
     """native: a drifting three-body system with repeated planet-planet encounters (TRACE rejects and redoes steps); the centre of
     mass must stay on its straight line to rounding error"""
     global _nat2
@@ -440,11 +471,17 @@ def native_comframe(integ):
     try:
         ns.add(m=1.0, vx=vcom); ns.add(m=1e-3, x=1.0, vy=1.0, vx=vcom); ns.add(m=1e-3, x=1.05, vy=-0.97, vx=vcom)
         ns.set('integrator', L.enumerators['REB_INTEGRATOR_' + integ]); ns.set('dt', 0.02)
+        deferred = integ in ('WHFAST', 'SABA')
+        if deferred:
+            ns.set('ri_%s.safe_mode' % integ.lower(), 0)
+            for k_, v_ in ((u or {}).get('set') or {}).items(): ns.set(k_, L.enumerators[v_] if isinstance(v_, str) else v_)
         M = sum(ns.particle(i).get('m') for i in range(3))
         com0 = sum(ns.particle(i).get('m') * ns.particle(i).get('x') for i in range(3)) / M
         worst = 0.0
         for k in range(400):
-            ns.call('reb_simulation_step'); ns.call('reb_simulation_synchronize')
+            ns.call('reb_simulation_step')
+            if deferred and k % 7 != 6: continue              # deferred synchronisation: several steps between synchronisations
+            ns.call('reb_simulation_synchronize')
             com = sum(ns.particle(i).get('m') * ns.particle(i).get('x') for i in range(3)) / M
             worst = max(worst, abs(com - (com0 + vcom * ns.get('t'))))
         return worst > 1e-9, "native %s, 400 steps of a drifting (v_com=0.5) star + two counter-rotating planets with close encounters: centre of mass leaves its straight line by %.3g" % (integ, worst)
@@ -456,7 +493,7 @@ def worker(u):
 
 def replay(data):
     if data.get('kind') == 'unit': return native_unit(data['unit'], data['vals'])
-    if data.get('kind') == 'comframe': return native_comframe(data['integ'])
+    if data.get('kind') == 'comframe': return native_comframe(data['integ'], data.get('unit'))
     if data.get('kind') == 'jerk': return native_jerk(data['unit'], data['vals'])
     return native_kick(data['unit'], data['vals'])
 
@@ -479,6 +516,8 @@ def main():
     if tier == 'thorough': us.append(dict(what='jerk', N=3, na=3, tpt=0, true_acc=True, ext=True))
     for N in ((3,) if tier == 'quick' else (2, 3, 4)):
         us.append(dict(what='comframe', integ='TRACE', N=N)); us.append(dict(what='comframe', integ='TRACE', N=N, peri=True)); us.append(dict(what='comframe', integ='MERCURIUS', N=N))
+        us.append(dict(what='comframe', integ='WHFAST', N=N, steps=2)); us.append(dict(what='comframe', integ='WHFAST', N=N, steps=2, set={'ri_whfast.corrector': 3}))
+        for ty in ('REB_SABA_1', 'REB_SABA_2', 'REB_SABA_10_6_4', 'REB_SABA_CM_1'): us.append(dict(what='comframe', integ='SABA', N=N, steps=2, set={'ri_saba.type': ty}))
     for tr in (0,):
         for pair in ((0, 1), (1, 0), (1, 2), (2, 0)): us.append(dict(what='merge', track=tr, pair=pair, ext=(tier == 'thorough')))
     rep = run_units(us, worker)
